@@ -194,6 +194,27 @@ print(g(a, b), g(b, a), g(0, 0))
     return show((n, acc, m))
 print(g(a), g(b), g(5), g(0))
 ''',
+    # coroutines: undecorated and decorated async methods, module-level async def (parso wraps them differently)
+    '''import asyncio
+class K:
+    base = 10
+    async def m(self, p):
+        s = self.base + p
+        t = (s, p * 2)
+        return show((s, t))
+    @staticmethod
+    async def sm(p):
+        u = p + 1
+        return show(u)
+    class Inner:
+        async def im(self, p):
+            v = p - 1
+            return show(v)
+async def co(p):
+    w = p * 3
+    return show(w)
+print(asyncio.run(K().m(b)), asyncio.run(K.sm(a)), asyncio.run(K.Inner().im(a)), asyncio.run(co(a)))
+''',
 ]
 
 
@@ -225,7 +246,7 @@ def stmt_runs(src, maxlen=3):
     """Every run of 1..maxlen complete sibling statements inside a function body: (l1, c1, l2, c2, pure)."""
     out = []
     tree = ast.parse(src)
-    funcs = [n for n in ast.walk(tree) if isinstance(n, ast.FunctionDef)]
+    funcs = [n for n in ast.walk(tree) if isinstance(n, (ast.FunctionDef, ast.AsyncFunctionDef))]
     for fn in funcs:
         for n in ast.walk(fn):
             for field in ('body', 'orelse'):
